@@ -20,6 +20,7 @@ import (
 	kemtypes "github.com/flant/shell-operator/pkg/kube_events_manager/types"
 	"github.com/flant/shell-operator/pkg/metric"
 	"github.com/flant/shell-operator/pkg/utils/measure"
+	"github.com/flant/shell-operator/pkg/utils/verifsched"
 )
 
 type resourceInformer struct {
@@ -159,6 +160,7 @@ func (ei *resourceInformer) getCachedObjects() []kemtypes.ObjectAndFilterResult 
 		res = append(res, *obj)
 	}
 	ei.cacheLock.RUnlock()
+	verifsched.Point("informer.snapshot.copied", ei.Monitor.Metadata.DebugName)
 
 	// Reset eventBuf if needed.
 	ei.eventBufLock.Lock()
@@ -389,11 +391,13 @@ func (ei *resourceInformer) handleWatchEvent(object interface{}, eventType kemty
 			Objects:     []kemtypes.ObjectAndFilterResult{*objFilterRes},
 		}
 
+		verifsched.Point("informer.watch.cached", ei.Monitor.Metadata.DebugName)
 		// fix race with enableKubeEventCb.
 		eventCbEnabled := false
 		ei.eventBufLock.Lock()
 		eventCbEnabled = ei.eventCbEnabled
 		ei.eventBufLock.Unlock()
+		verifsched.Point("informer.watch.flagRead", ei.Monitor.Metadata.DebugName)
 
 		if eventCbEnabled {
 			// Pass event info to callback.
